@@ -7,7 +7,8 @@ FLAGS = ["F0", "F1"]
 VALS = ["V0", "V1"]
 T = "\x00"          # placeholder of the per-line token, filled in by render()
 
-LIT_CHARS = ["a", "b", " ", "!", "&", "//", "#", "$", "x y", "!$omp", "& !", ";", "(", ","]
+LIT_CHARS = ["a", "b", " ", "!", "&", "//", "#", "$", "x y", "!$omp", "& !", ";", "(", ",", "a", "b", "!", "&", "//",
+             "\\", "\\n"]      # the last two: a backslash inside a literal (known finding backslash-in-literal)
 
 
 def gen_lit(rng, allow_token=True):
